@@ -25,6 +25,11 @@ type c08Est struct {
 	// in-process mode: the accepting side calls Accept and starts serving the listener only this much
 	// later (its own grpc.Server instead of AcceptAndServe); 0 = AcceptAndServe
 	ServeDelayMs int `json:"serve_delay_ms,omitempty"`
+	// LateAccept (in-process mode, dial-first): the accept comes more than 5 s after the dial, so the
+	// first knock has timed out; the dialler keeps trying its first call (as a caller with retries
+	// does) and gRPC knocks again. Outside the pending window nothing is promised about the first
+	// attempt, but the establishment must not damage the ones that follow.
+	LateAccept bool `json:"late_accept,omitempty"`
 }
 
 type c08Case struct {
@@ -40,13 +45,23 @@ func c08GenEsts(t *rapid.T, maxK int, perEstDelays bool) []c08Est {
 	var ests []c08Est
 	for i := 0; i < k; i++ {
 		e := c08Est{HostAccepts: rapid.Bool().Draw(t, "hostaccepts"), DialFirst: rapid.Bool().Draw(t, "dialfirst")}
-		switch weighted(t, "gapclass", 75, 20, 5) {
+		switch weighted(t, "gapclass", 72, 20, 5, 3) {
 		case 0:
 			e.GapMs = uniform(t, "gap", 30)
 		case 1:
 			e.GapMs = uniform(t, "gapm", 300)
 		case 2:
 			e.GapMs = 500 + uniform(t, "gapl", 3001)
+		case 3:
+			// the accept comes after the dialler's first knock has timed out (5 s) and gRPC has knocked
+			// again: the establishment still completes, and must leave nothing behind for the next one
+			if perEstDelays {
+				e.DialFirst = true
+				e.LateAccept = true
+				e.GapMs = 6200 + uniform(t, "gapxl", 800)
+			} else {
+				e.GapMs = 500 + uniform(t, "gapl", 3001)
+			}
 		}
 		if perEstDelays || i == 0 {
 			e.DBeforeListener = oneOf(t, "d1", c08Delays)
@@ -118,7 +133,12 @@ func c08RunSequential(out *Outcome, host *localEnd, plug brokerEnd, ping func() 
 		}
 		var tag Tag
 		var err error
-		if _, ok := within(40*time.Second, func() { tag, err = dia.dial(id, time.Duration(dt)*time.Millisecond) }); !ok {
+		dialFn := dia.dial
+		if le, ok := dia.(*localEnd); ok && e.LateAccept {
+			dialFn = le.dialRetry
+			out.label("late-accept")
+		}
+		if _, ok := within(40*time.Second, func() { tag, err = dialFn(id, time.Duration(dt)*time.Millisecond) }); !ok {
 			out.Slow = fmt.Sprintf("establishment %d did not finish within 40 s", id)
 			return
 		}
